@@ -82,7 +82,7 @@ def retry_run(sc, rs, tier, seed):
 DL_RUN = {"harness": "hdeadline", "driver": "dldrv", "corpus": "deadline", "fields": ["st", "post", "overdue", "rt", "wt", "bl", "rdl"], "custom": retry_run,
           "quick": {"n": 40, "shards": 12}, "thorough": {"n": 96, "shards": 24}}
 
-STOP_RUN = {"harness": "hstop", "driver": "stopdrv", "corpus": "stopsim", "fields": ["stop", "opens", "closes", "qa", "qb", "online", "ha", "hb", "wa", "wb", "got", "ra", "rb", "ret", "leak", "attempts"] + ["c%d" % i for i in range(64)],
+STOP_RUN = {"harness": "hstop", "driver": "stopdrv", "corpus": "stopsim", "fields": ["stop", "opens", "closes", "qa", "qb", "online", "ha", "hb", "wa", "wb", "got", "ra", "rb", "ret", "leak", "attempts", "dialerrs", "panics"] + ["c%d" % i for i in range(64)],
             "custom": retry_run, "quick": {"n": 30, "shards": 12}, "thorough": {"n": 120, "shards": 24}}
 
 WSCB_RUN = {"harness": "hwscb", "driver": "wscbdrv", "corpus": "wscb", "fields": ["log", "run", "ret", "sent", "wire", "ql", "rets", "groups", "whole", "exec"],
@@ -116,7 +116,9 @@ PROPS = {
                     "close job is submitted once per connection is assumed from C03/C18; wire order presupposes a single Parse "
                     "caller per connection (C02); the driver applies flip+notify, finish+next and send+advance as units "
                     "(interleavings inside these pairs are covered by the theorems only, not executed); e2e cases compare "
-                    "summaries (callback log, groups, whole, exec) and wd cases read the order of the critical sections back from "
+                    "summaries (callback log, groups, whole, exec); the ownership of the send queue's frame buffers is not in the "
+                    "model (SendQ has call ids and fragments): the writer cases run on a tracking allocator whose verdicts (double "
+                    "free, free of a non-live buffer, write after release) are reported as c14-lost-dup; wd cases read the order of the critical sections back from "
                     "the implementation's wire; the second conjunct of c14_failed_upgrade_no_callbacks is definitional; the TLS "
                     "upgrade scenarios (2.x) are not run end to end (decision table + source predicate only)",
             "technique": "Lean 4 proof (invariants over two transition systems, one of them embedding C05's ExecQ) + differential "
@@ -193,7 +195,9 @@ PROPS = {
                 "real ListenerMux; hsim case = nbhttp I/O mode x forced schedule (conn gated inside OnOpen, release, peer close, "
                 "conn accepted after the shutdown flag, request handler held while the conn is closed, stop|shutdown, wait); "
                 "ioblock case = Stop racing a read hand-over to the default IO task pool (ET + AsyncReadInPoller): the poller is held "
-                "inside TaskPool.Go by the shim's atomic hook until Stop has stopped the pool (state established by probing)",
+                "inside TaskPool.Go by the shim's atomic hook until Stop has stopped the pool (state established by probing); "
+                "fdlimit case = table limit (MaxOpenFiles 16/32/64, low descriptor numbers padded) x dials x accepts refused at "
+                "the door x stop|shutdown",
         "assumptions": ["the Async queue is a plain FIFO list in the model; that timer.Async is one (FIFO, exactly once, completes) is "
                         "C19's c19_async_fifo_exactly_once / c19_async_completes on ExecQ with Kind.async",
                         "HttpStop: closeAllConns is one atomic step (whole loop under engine.mux; its single Close calls touch "
